@@ -660,4 +660,238 @@ theorem encRunFrom_cells (p : Params) (hp : p.Valid) (i : Nat) (w : World) (v : 
   obtain ⟨w', v', c1, c2, c3, c4⟩ := encFinish_simP p hp i h0 r _ b2
   exact ⟨w', r.drained, v', by simp only [encRunFrom, encPrefixFrom, a1, b1, c1, Option.map_some], c2, c3, c4⟩
 
+/-! ### A pre-filled iovec with nothing pending: no hypothesis beyond the structural invariant -/
+
+/-- Any iovec that satisfies the structural invariant and has no pending backref (whatever its slice
+structure, however much of it was consumed, whatever placeholders it had that are filled by now)
+represents the pipe of its flattened bytes. -/
+theorem simV_of_noPending {w : World} {v : Iov} (g : List UInt8) (hinv : IovInv w v) (hnp : v.hasPending = false) :
+    SimV w v g [] ⟨(w.flat v.slices).map Cell.byte, g, 0⟩ := by
+  obtain ⟨g1, g2⟩ := visible_all_of_no_pending hinv hnp
+  have hb : v.backrefs = [] := by
+    unfold Iov.hasPending at hnp
+    cases hbb : v.backrefs with
+    | nil => rfl
+    | cons _ _ => rw [hbb] at hnp; simp at hnp
+  exact
+    { inv := hinv
+      cells := by simp only [rename_map_byte]; rw [g2, g1]
+      ghost := rfl
+      nid := rfl
+      holes_lt := by intro j hj; exact absurd hj (mem_hole_map_byte _ _)
+      tk_sorted := List.Pairwise.nil
+      tk_le := by intro b hb; cases hb
+      tk_ok := by intro e he; rw [hb] at he; cases he
+      tk_len := by intro j e hj; simp at hj }
+
+theorem absCells_of_noPending {w : World} {v : Iov} (hinv : IovInv w v) (hnp : v.hasPending = false) :
+    absCells w v = (w.flat v.slices).map Cell.byte := by
+  obtain ⟨g1, g2⟩ := visible_all_of_no_pending hinv hnp
+  rw [g2, g1]
+
+theorem map_byte_injective {a b : List UInt8} (h : a.map Cell.byte = b.map Cell.byte) : a = b := by
+  have := congrArg cellBytes h
+  simpa using this
+
+/-- The whole run from a pre-filled iovec with nothing pending: `prefilled_output`. -/
+theorem encRunFrom_flat (p : Params) (hp : p.Valid) (i : Nat) (w : World) (v : Iov) (g : List UInt8)
+    (hv : w.iov i = some v) (hinv : IovInv w v) (hnp : v.hasPending = false) (calls : List ACall) :
+    ∃ w' dr v', encRunFrom p w i g calls = some (w', dr) ∧ w'.iov i = some v' ∧ IovInv w' v' ∧
+      v'.hasPending = false ∧ w'.visible v' = w'.flat v'.slices ∧
+      dr ++ w'.flat v'.slices = g ++ w.flat v.slices ++ Spec.encode p (ainputOf calls) := by
+  obtain ⟨w', dr, v', h1, h2, h3, h4⟩ := encRunFrom_cells p hp i w v g [] _ hv (simV_of_noPending g hinv hnp) calls
+  rw [absCells_of_noPending hinv hnp] at h4
+  have hall : dr.map Cell.byte ++ absCells w' v' =
+      (g ++ w.flat v.slices ++ Spec.encode p (ainputOf calls)).map Cell.byte := by
+    rw [h4]; simp
+  have hcells : absCells w' v' = ((g ++ w.flat v.slices ++ Spec.encode p (ainputOf calls)).drop dr.length).map Cell.byte := by
+    have := congrArg (List.drop dr.length) hall
+    rw [List.drop_left' (by simp)] at this
+    rw [this, List.map_drop]
+  have hpend : v'.hasPending = false := by
+    rw [hasPending_eq_pending h3, hcells]; exact Woodpile.Pipe.any_hole_map_byte _
+  obtain ⟨g1, g2⟩ := visible_all_of_no_pending h3 hpend
+  refine ⟨w', dr, v', h1, h2, h3, hpend, g1, ?_⟩
+  rw [g2, g1, ← List.map_append] at hall
+  exact map_byte_injective hall
+
+/-! ### Lag and prefix from a pre-filled start -/
+
+theorem stable_prefix_of_eq (M L : List UInt8) (R B : List Cell) (k K : Nat) (hk : 1 ≤ k)
+    (h : M.map Cell.byte ++ R = L.map Cell.byte ++ (List.replicate k (Cell.hole K) ++ B)) : M <+: L := by
+  have h1 := Pipe.stable_of_cells ⟨M.map Cell.byte ++ R, [], 0⟩ M R rfl
+  have h2 := Pipe.stable_of_cells ⟨M.map Cell.byte ++ R, [], 0⟩ L (List.replicate k (Cell.hole K) ++ B) h
+  have h3 : (List.replicate k (Cell.hole K) ++ B).takeWhile Cell.isByte = [] := by
+    obtain ⟨k', rfl⟩ : ∃ k', k = k' + 1 := ⟨k - 1, by omega⟩
+    simp [List.replicate_succ, Cell.isByte]
+  rw [h3] at h2
+  rw [h2] at h1
+  simp only [Woodpile.Pipe.cellBytes_nil, List.append_nil] at h1
+  exact ⟨_, h1.symm⟩
+
+/-- The closed chunks of the abstract encoder state are a prefix of the final output, whatever follows. -/
+theorem done_prefix_encode (p : Params) (hp : p.Valid) (a b : List UInt8) :
+    (a.foldl (byteStep p) BS.init).done <+: Spec.encode p (a ++ b) := by
+  obtain ⟨h1, h2⟩ := fold_init_inv p hp a
+  have := fold_finish p hp b (a.foldl (byteStep p) BS.init) (((a.foldl (byteStep p) BS.init).eff ++ b).length + 1) h1 h2
+    (by omega)
+  rw [← List.foldl_append, fold_finish_encode p hp] at this
+  exact ⟨_, this.symm⟩
+
+/-- Between calls of a run from a pre-filled iovec whose prefix `pre` holds no placeholder (`pre` = the
+bytes `P`): the shape of the abstraction, the pending size header as a backref, and the lag. -/
+theorem lag_of_runInvP (p : Params) (hp : p.Valid) (i : Nat) {w : World} {v : Iov} {g : List UInt8} {ct : List Backref}
+    {Q0 : Pipe} (h0 : SimV w v g ct Q0) (P : List UInt8) (hP : g.map Cell.byte ++ absCells w v = P.map Cell.byte)
+    (r : Run) (input : List UInt8) (h : RunInvP p i ct Q0.total.cells r input) :
+    ∃ v' e s c, r.w.iov i = some v' ∧ IovInv r.w v' ∧
+      e ∈ v'.backrefs ∧ e.2.len = r.e.st.brLen ∧
+      v'.slices[e.2.sliceIndex - v'.consumedSlices]? = some s ∧ s.region = .chunk c ∧
+      e.2.begin + r.e.st.brLen ≤ s.len ∧
+      v'.totalSize - (r.w.visible v').length = e.2.begin + r.e.st.brLen + r.e.st.cur ∧
+      1 ≤ r.e.st.brLen ∧ r.e.st.brLen ≤ 2 ∧
+      r.e.st.cur + (if r.e.st.mid then 1 else 0) < r.e.st.maxChunk ∧
+      (r.e.st.maxChunk = p.maxInit ∨ r.e.st.maxChunk = p.maxSub) ∧
+      r.drained ++ r.w.visible v' <+: P ++ (input.foldl (byteStep p) BS.init).done := by
+  obtain ⟨v', q', hv', ⟨Q, hs, hl⟩, hrel⟩ := h
+  have hcells := simP_cells h0 hs hl
+  obtain ⟨hi1, _⟩ := fold_init_inv p hp input
+  generalize input.foldl (byteStep p) BS.init = σ at hrel hi1
+  obtain ⟨hmax, hcur, hmid, hbr, hnid, hq⟩ := hrel
+  have hk : 1 ≤ r.e.st.brLen ∧ r.e.st.brLen ≤ 2 := by cases hf : σ.first <;> simp [hbr, hf]
+  -- the codec's placeholder on the real pipe
+  have hcnt : Q.cells.count (Cell.hole (r.e.st.backref + ct.length)) = r.e.st.brLen := by
+    rw [hl.count, hq, count_hole_pipeOf]
+  have hm : Cell.hole (r.e.st.backref + ct.length) ∈ Q.cells := List.count_pos_iff.mp (by omega)
+  obtain ⟨e, _, he, hek, hel⟩ := hs.token _ hm
+  rw [tokKey_append_right'] at hek
+  -- the shape of the abstraction
+  have hshape : r.drained.map Cell.byte ++ absCells r.w v' =
+      (P ++ σ.done).map Cell.byte ++ List.replicate r.e.st.brLen (Cell.hole (tokKey r.e.toks r.e.st.backref)) ++
+        σ.body.map Cell.byte := by
+    rw [hcells, hP, hq]
+    simp only [pipeOf, List.map_append, rename_map_byte, rename_replicate_hole, List.append_assoc]
+  have htot : (⟨absCells r.w v', r.drained, tokKey r.e.toks r.e.st.backref + 1⟩ : Pipe).total =
+      pipeOf (P ++ σ.done) r.e.st.brLen (tokKey r.e.toks r.e.st.backref) σ.body := by
+    simp only [Woodpile.Pipe.Pipe.total, pipeOf, hshape]
+  have habs := cells_of_total_pipeOf _ _ _ _ _ hk.1 htot
+  simp only at habs
+  obtain ⟨g1, s, c, g2, g3, g4⟩ := lag_of_single_hole hs.inv _ _ _ _ hk.1 habs e he hek (by rw [hel, hcnt])
+  have hinv' : σ.eff.length < Spec.limit p σ.first := hi1
+  have hM : σ.M p = Spec.limit p σ.first := rfl
+  rw [BS.eff_length, ← hmid, ← hcur] at hinv'
+  refine ⟨v', e, s, c, hv', hs.inv, he, by rw [hel, hcnt], g2, g3, g4, ?_, hk.1, hk.2, by omega, ?_, ?_⟩
+  · rw [g1, hcur]
+  · cases hf : σ.first
+    · right; rw [hmax, hM, hf]; rfl
+    · left; rw [hmax, hM, hf]; rfl
+  · have hv := absCells_visible hs.inv
+    rw [hv, ← List.append_assoc, ← List.map_append, List.append_assoc] at hshape
+    exact stable_prefix_of_eq _ _ _ _ _ _ hk.1 hshape
+
+/-- `Encoder::new_from_iovec` on a pre-filled iovec followed by any calls (all input methods): never
+panics; the invariant holds between calls. -/
+theorem encPrefixFrom_inv (p : Params) (hp : p.Valid) (i : Nat) (w : World) (v : Iov) (g : List UInt8)
+    (ct : List Backref) (Q0 : Pipe) (hv : w.iov i = some v) (h0 : SimV w v g ct Q0) (calls : List ACall) :
+    ∃ r, encPrefixFrom p w i g calls = some r ∧ RunInvP p i ct Q0.total.cells r (ainputOf calls) := by
+  obtain ⟨w1, e1, a1, a2, _⟩ := encInit_simP p i w v g ct Q0 hv h0
+  obtain ⟨r, b1, b2⟩ := encCallsA_simP p hp i ct _ calls ⟨w1, e1, g⟩ [] a2
+  exact ⟨r, by simp only [encPrefixFrom, a1, b1], by simpa using b2⟩
+
+/-- Structural lag of the encoder between calls, from a pre-filled iovec with nothing pending at the
+hand-over (as `enc_lag_structA`; the last clause is the prefix property in terms of the abstract state). -/
+theorem enc_lag_structP (p : Params) (hp : p.Valid) (i : Nat) (w : World) (v : Iov) (g : List UInt8)
+    (hv : w.iov i = some v) (hinv : IovInv w v) (hnp : v.hasPending = false) (calls : List ACall) :
+    ∃ r v' e s c, encPrefixFrom p w i g calls = some r ∧ r.w.iov i = some v' ∧ IovInv r.w v' ∧
+      e ∈ v'.backrefs ∧ e.2.len = r.e.st.brLen ∧
+      v'.slices[e.2.sliceIndex - v'.consumedSlices]? = some s ∧ s.region = .chunk c ∧
+      e.2.begin + r.e.st.brLen ≤ s.len ∧
+      v'.totalSize - (r.w.visible v').length = e.2.begin + r.e.st.brLen + r.e.st.cur ∧
+      1 ≤ r.e.st.brLen ∧ r.e.st.brLen ≤ 2 ∧
+      r.e.st.cur + (if r.e.st.mid then 1 else 0) < r.e.st.maxChunk ∧
+      (r.e.st.maxChunk = p.maxInit ∨ r.e.st.maxChunk = p.maxSub) := by
+  have h0 := simV_of_noPending g hinv hnp
+  obtain ⟨r, a1, a2⟩ := encPrefixFrom_inv p hp i w v g [] _ hv h0 calls
+  obtain ⟨v', e, s, c, b1, b2, b3, b4, b5, b6, b7, b8, b9, b10, b11, b12, _⟩ :=
+    lag_of_runInvP p hp i h0 (g ++ w.flat v.slices) (by rw [absCells_of_noPending hinv hnp]; simp) r _ a2
+  exact ⟨r, v', e, s, c, a1, b1, b2, b3, b4, b5, b6, b7, b8, b9, b10, b11, b12⟩
+
+/-- C09's prefix clause from a pre-filled iovec with nothing pending at the hand-over: drained ++ the stable
+prefix is a prefix of (what the iovec held) ++ `Spec.encode` of the WHOLE input, whatever calls follow. -/
+theorem enc_prefix_structP (p : Params) (hp : p.Valid) (i : Nat) (w : World) (v : Iov) (g : List UInt8)
+    (hv : w.iov i = some v) (hinv : IovInv w v) (hnp : v.hasPending = false) (c1 c2 : List ACall) :
+    ∃ r v', encPrefixFrom p w i g c1 = some r ∧ r.w.iov i = some v' ∧ IovInv r.w v' ∧
+      r.drained ++ r.w.visible v' <+: g ++ w.flat v.slices ++ Spec.encode p (ainputOf (c1 ++ c2)) := by
+  have h0 := simV_of_noPending g hinv hnp
+  obtain ⟨r, a1, a2⟩ := encPrefixFrom_inv p hp i w v g [] _ hv h0 c1
+  obtain ⟨v', e, s, c, b1, b2, _, _, _, _, _, _, _, _, _, _, b13⟩ :=
+    lag_of_runInvP p hp i h0 (g ++ w.flat v.slices) (by rw [absCells_of_noPending hinv hnp]; simp) r _ a2
+  refine ⟨r, v', a1, b1, b2, List.IsPrefix.trans b13 ?_⟩
+  rw [ainputOf_append]
+  exact (List.prefix_append_right_inj _).mpr (done_prefix_encode p hp _ _)
+
+theorem takeWhile_append_of_any (A Y : List Cell) (h : A.any (fun c => !c.isByte) = true) :
+    (A ++ Y).takeWhile Cell.isByte = A.takeWhile Cell.isByte := by
+  induction A with
+  | nil => simp at h
+  | cons c t ih =>
+    cases c with
+    | byte b =>
+      simp only [List.any_cons, Cell.isByte, Bool.not_true, Bool.false_or] at h
+      simp [List.takeWhile_cons, Cell.isByte, ih h]
+    | hole j => simp [Cell.isByte]
+
+theorem prefix_of_cells_eq (M G : List UInt8) (R A Y : List Cell) (hany : A.any (fun c => !c.isByte) = true)
+    (h : M.map Cell.byte ++ R = G.map Cell.byte ++ (A ++ Y)) : M <+: G ++ cellBytes (A.takeWhile Cell.isByte) := by
+  have h1 := Pipe.stable_of_cells ⟨M.map Cell.byte ++ R, [], 0⟩ M R rfl
+  have h2 := Pipe.stable_of_cells ⟨M.map Cell.byte ++ R, [], 0⟩ G (A ++ Y) h
+  rw [takeWhile_append_of_any _ _ hany] at h2
+  rw [h2] at h1
+  exact ⟨_, h1.symm⟩
+
+/-- With a caller placeholder pending at the hand-over, everything the encoder produces stays hidden behind
+it: at any moment drained ++ the stable prefix is a prefix of the bytes that precede the caller's first
+pending placeholder (C04: the lag is unbounded by design). -/
+theorem enc_hidden_behind_caller (p : Params) (hp : p.Valid) (i : Nat) (w : World) (v : Iov) (g : List UInt8)
+    (ct : List Backref) (Q0 : Pipe) (hv : w.iov i = some v) (h0 : SimV w v g ct Q0) (hpend : v.hasPending = true)
+    (calls : List ACall) :
+    ∃ r v', encPrefixFrom p w i g calls = some r ∧ r.w.iov i = some v' ∧ IovInv r.w v' ∧ v'.hasPending = true ∧
+      r.drained ++ r.w.visible v' <+: g ++ cellBytes ((absCells w v).takeWhile Cell.isByte) := by
+  obtain ⟨r, a1, a2⟩ := encPrefixFrom_inv p hp i w v g ct Q0 hv h0 calls
+  obtain ⟨v', q', hv', ⟨Q, hs, hl⟩, _⟩ := a2
+  have hcells := simP_cells h0 hs hl
+  have hany : (absCells w v).any (fun c => !c.isByte) = true := by rw [← hasPending_eq_pending h0.inv]; exact hpend
+  have hvis := absCells_visible hs.inv
+  have hpre : r.drained ++ r.w.visible v' <+: g ++ cellBytes ((absCells w v).takeWhile Cell.isByte) := by
+    rw [hvis, ← List.append_assoc, ← List.map_append, List.append_assoc (g.map Cell.byte)] at hcells
+    exact prefix_of_cells_eq _ _ _ _ _ hany hcells
+  refine ⟨r, v', a1, hv', hs.inv, ?_, hpre⟩
+  -- the caller's placeholder is still there
+  rw [hasPending_eq_pending hs.inv]
+  have : ((r.drained.map Cell.byte ++ absCells r.w v').any fun c => !c.isByte) = true := by
+    rw [simP_cells h0 hs hl]
+    simp only [List.any_append, hany, Bool.or_true, Bool.true_or]
+  rw [List.any_append, Woodpile.Pipe.any_hole_map_byte, Bool.false_or] at this
+  exact this
+
+/-- In-capacity along a run from a pre-filled iovec: if the iovec handed over satisfies the capacity
+invariant (`CapW`: what every caller call with requests of at most `B` bytes preserves —
+`pushCopy_cap`, `registerPatch_cap`, `backfill_cap`, `push_cap`, `consume_cap`, … of `Proofs/EncWorldCap`),
+every owned slice of the encoder's iovec ends within `S` bytes of the start of its chunk. -/
+theorem encPrefixFrom_cap {T : Tuning} {B S : Nat} (hH : Hint T B S) (hB2 : 2 ≤ B) (p : Params)
+    (hinit : p.maxInit ≤ B) (hsub : p.maxSub ≤ B) (w : World) (i : Nat) (g : List UInt8) (calls : List ACall)
+    (hc : ReadsLe B calls) (hw : CapW T S i w) (r : Run) (h : encPrefixFrom p w i g calls = some r) :
+    ∀ v, r.w.iov i = some v → ∀ s ∈ v.slices, ∀ c, s.region = .chunk c → s.off + s.len ≤ S := by
+  simp only [encPrefixFrom] at h
+  cases h0 : encInit p w i with
+  | none => rw [h0] at h; cases h
+  | some x =>
+    obtain ⟨w1, e1⟩ := x
+    rw [h0] at h
+    simp only at h
+    obtain ⟨hw1, hm1⟩ := encInit_cap hH hB2 p hinit hw h0
+    obtain ⟨_, v', hv', hcap⟩ := encCallsA_cap hH hB2 p hsub i calls ⟨w1, e1, g⟩ r hc hw1 hm1 h
+    intro v hv
+    rw [hv'] at hv; cases hv
+    exact hcap.slices
+
 end Woodpile.EncWorld
